@@ -27,6 +27,18 @@ def tasks(tier, seed):
                             'values), larger-but-materialisable (one representative), > 256 MiB (bad_alloc)' % (cls, small),
                        reach=('h_dec:end',), bounds='stream <= fixed part + 8 bytes',
                        kinds={'memory', 'assert', 'uncaught_exception', 'terminate', 'trap', 'unreachable', 'deadlock'}))
+    # the same decoders on a long stream (fixed part + 300 symbolic bytes): a length field of 8 or 16 bits can ask for more
+    # than the few bytes of the short stream, and only then does a copy run past a buffer that was sized differently
+    for cls in codec.classes():
+        if cls in HEAVY:
+            continue
+        txt = '#define VP_DEC_CUTS 1\n#define VP_DEC_EXTRA 300\n' + codec.gen(cls, maxlen=4)
+        ts.append(Task('%s.h_dec_long' % cls, txt, 'h_dec', None,
+                       opts=dict(alloc_policy=(small, 1 << 28), max_paths=200000, enum_limit=6000,
+                                 max_wall=240 if tier == 'quick' else 1500, validate=False),
+                       desc='%s::read on a stream of fixed part + 300 symbolic bytes' % cls,
+                       reach=('h_dec:end',), bounds='stream = fixed part + 300 bytes',
+                       kinds={'memory', 'assert', 'uncaught_exception', 'terminate', 'trap', 'unreachable', 'deadlock'}))
     zm = build.support_module('zlib_stub.cpp')
     txt = open(os.path.join(HERE, 'harness', 'c10_file_hostile.cpp')).read()
     ts.append(Task('file.hostile_header', txt, 'h_hostile', None,
